@@ -184,7 +184,8 @@ fn find_bind_borrow''', '''        ParseQueryParamType::EntityDirectWild => {
 fn find_bind_borrow''', ['C09']),
     ('find_dispatch_drops_match', 'macros/src/generate/query.rs', '''                    #fetch.map(|found| closure(#(#attrs #bind),*))
                 }
-                #__WorldSelectTotal::#ArchetypeDirect(#resolved_entity) => {''', '''                    #fetch.map(|found| closure(#(#attrs #bind),*)).and_then(|_| None)
+                #__WorldSelectTotal::#ArchetypeDirect(#resolved_entity) => {''', '''                    let _called = #fetch.map(|found| closure(#(#attrs #bind),*));
+                    None
                 }
                 #__WorldSelectTotal::#ArchetypeDirect(#resolved_entity) => {''', ['C01']),
     ('gen_any_to_direct_none', GW, '''Ok(SelectEntity::#Archetype(entity)) =>
@@ -266,6 +267,14 @@ pub fn generate_query_iter_destroy(''', ['C05']),
                             #Archetype::ARCHETYPE_ID => Ok(SelectArchetype::#Archetype),
                         )*
                         _ => Err(EcsError::InvalidEntityType),''', ['C14']),
+    ('borrow_slice_mut_whole_capacity', ST, """                        RefMut::map(self.d~I.borrow_mut(), |slice| unsafe {
+                            debug_checked_assume!(self.len <= MAX_DATA_CAPACITY as usize);
+                            // SAFETY: We guarantee that the storage is valid up to self.len.
+                            slice.slice_mut(self.len)""", """                        RefMut::map(self.d~I.borrow_mut(), |slice| unsafe {
+                            debug_checked_assume!(self.len <= MAX_DATA_CAPACITY as usize);
+                            // SAFETY: We guarantee that the storage is valid up to self.len.
+                            slice.slice_mut(self.capacity)""", ['C03', 'C06']),
+    ('borrow_component_mut_wrong_row', ST, 'slice.slice_mut(self.source.len).get_unchecked_mut(self.index)', 'slice.slice_mut(self.source.len).get_unchecked_mut(self.source.len - 1 - self.index)', ['C02']),
 ]
 
 
